@@ -58,16 +58,13 @@ def setBytes (F : FieldOps α) (v : Bytes) : Outcome α :=
   | .ok c => if c > 0 then .err else .ok (F.toMontgomery (F.fromBytesLE v.reverse))
   | _ => .panic
 
-/-- `(*SM2ScalarElement).SetBytes`: the comparison is an early-exit loop (same verdict) -/
-def scalarSetBytesCheck (v m1 : Bytes) : Bool :=   -- true = reject
-  match v, m1 with
-  | a :: v', b :: m' => if a < b then false else if a > b then true else scalarSetBytesCheck v' m'
-  | _, _ => false
-
+/-- `(*SM2ScalarElement).SetBytes`: since the repair of the early-exit loop the same code as
+    `(*SM2Element).SetBytes`: length 32, not above the encoding of n-1 (ConstantTimeCmp) -/
 def scalarSetBytes (F : FieldOps α) (v : Bytes) : Outcome α :=
   if v.length ≠ 32 then .err else
-  if scalarSetBytesCheck v (minusOneEncoding F) then .err
-  else .ok (F.toMontgomery (F.fromBytesLE v.reverse))
+  match Utils.constantTimeCmp (some v) (some (minusOneEncoding F)) 32 with
+  | .ok c => if c > 0 then .err else .ok (F.toMontgomery (F.fromBytesLE v.reverse))
+  | _ => .panic
 
 /-- `Invert`: the generated addition chain over Mul/Square -/
 def invert (F : FieldOps α) (x : α) : α :=
